@@ -50,6 +50,30 @@ CHECKS = {
          'documented model. Sampling, not proof; failing programs are shrunk to 1-3 ops.',
     note='Trusted: raw dump / well-formedness predicate (tsim/treeview.py), the label-multiset '
          'model derived from the transformation docstrings. Prerequisites judged conservatively.'),
+ 'C06': dict(
+    ref='DESIGN.md §5 C06',
+    technique='deterministic simulation: interleaved extraction sessions updating caller-owned '
+              'accumulators tree by tree; conservation invariants after every step, refinement '
+              'against a set-based reference extraction, permuted processing order in a sibling '
+              'process',
+    text='Seeded exploration: 1-3 sessions feed their own (grammar, lexicon) from API-built or '
+         'reader-delivered trees under a seeded interleaving; after every extract call the '
+         'accumulator must satisfy the conservation equations and equal the reference extraction '
+         'of the sentences seen so far; the context-freeness flag and order independence are '
+         'checked at the end. Sampling with small alphabets so that counts exceed 1.',
+    note='Trusted: tsim/refgram.py reference extraction (written from the property text).'),
+ 'C08': dict(
+    ref='DESIGN.md §5 C08',
+    technique='deterministic simulation: lost-update search - colliding binarization labels as '
+              'concurrent updates, processing order as schedule; flow-conservation equations over '
+              'the binarized grammar, order independence across sibling processes',
+    text='Seeded exploration: treebanks with small label alphabets are extracted and binarized in '
+         'one of 2 reorderings x (deterministic | Markov v,h in 0..3 | nofanout) under 2-3 '
+         'processing orders in sibling simulated processes; per-nonterminal sums, the flow '
+         'equation for every symbol (binarization symbols included) and, for Markov modes, '
+         'equality of the result across orders are required. Sampling, not proof.',
+    note='Trusted: reference extraction and flow-equation checker in tsim/refgram.py. Counts in '
+         'written files are checked by C09.'),
 }
 
 NOT_BUILT_YET = {}
